@@ -687,6 +687,20 @@ func authDirected(o authGenOpts) []Case {
 			cases = append(cases, g.Case(fmt.Sprintf("directed:norealm cfg=%d", cfgKind)))
 		}
 	}
+	// 9. a token server that answers 307 / 308 pointing somewhere else
+	if o.prop == "C11" {
+		for _, cfgKind := range []int{1, 2, 4} {
+			for _, st := range []int{307, 308} {
+				g := newAuthCaseGen(NewRNG(1), o)
+				g.cfg(0, cfgKind)
+				a := mk(0, 0, pull, "")
+				a.reg[0] = regReply{status: 401, hdrs: []string{bearerHdr(realm0, "svc0", pull)}}
+				allTok(a, tokReply{kind: 's', status: st})
+				g.add(a)
+				cases = append(cases, g.Case(fmt.Sprintf("directed:realm-redirects cfg=%d status=%d", cfgKind, st)))
+			}
+		}
+	}
 	// 8. two first requests to one host at the same time (different scopes), then one request per scope:
 	// whatever the schedule, the host has one state, both tokens are in it, the follow-ups are cache hits
 	for _, cfgKind := range []int{0, 1, 2, 4} {
